@@ -4,7 +4,7 @@ Import ListNotations.
 Open Scope string_scope.
 
 Record case15 := {
-  k_main : access bytes; k_personal : access bytes; k_cfg : rcfg; k_embedded : list bytes;
+  k_main : access bytes; k_personal : access bytes; k_cfg : rcfg; k_embedded : list bytes; k_minimal : list bytes;
   k_main_kind : string;
   k_nil : bool; k_err : bool; k_db : list bytes; k_attempts : Z; k_gaps : list Z; k_delays : list Z; k_searched : bool }.
 
@@ -12,6 +12,9 @@ Definition qfloor (q : Q) : Z := Qfloor q.
 
 Fixpoint nondecr (l : list Z) : bool :=
   match l with a :: ((b :: _) as r) => (a <=? b)%Z && nondecr r | _ => true end.
+
+(* the attempts whose computed wait is compared (consecutive at first: they are aligned with the observed gaps) *)
+Definition delay_ks : list nat := [1; 2; 3; 4; 5; 8; 13; 20; 39; 40; 64; 65; 100; 600; 1100]%nat.
 
 Definition check_case (c : case15) : report :=
   let faults := fun _ : nat => (k_main c, k_personal c) in
@@ -30,14 +33,15 @@ Definition check_case (c : case15) : report :=
     else if negb (k_searched c) then Some "searchable"
     else if real_possible && negb (list_eqb bytes_eqb (k_db c) real) then Some "real_when_possible"
     else if negb real_possible && (match k_db c with [] => true | _ => false end) then Some "nonempty_fallback"
+    else if negb real_possible && negb (list_eqb bytes_eqb (k_db c) (k_embedded c) || list_eqb bytes_eqb (k_db c) (k_minimal c)) then Some "builtin_fallback"
     else if once && negb (Z.eqb (k_attempts c) 1) then Some "tried_once"
     else if negb (1 <=? k_attempts c)%Z || negb (k_attempts c <=? maxatt)%Z then Some "attempts_bound"
-    else if negb (forallb (fun d => (d <=? Z.max cap 0)%Z) (k_delays c)) then Some "delay_capped"
+    else if negb (forallb (fun d => (0 <=? d)%Z && (d <=? Z.max cap 0)%Z) (k_delays c)) then Some "delay_capped"
     else if factor_ge_1 && negb (nondecr (k_delays c)) then Some "delay_monotone"
     else if negb (list_eqb2 (fun g d => (d <=? g)%Z) (k_gaps c) (firstn (List.length (k_gaps c)) (k_delays c))) then Some "waits_between_attempts"
     else None in
   let same := list_eqb bytes_eqb (k_db c) mdb && Z.eqb (k_attempts c) (Z.of_nat mn) &&
-              list_eqb Z.eqb (k_delays c) (map (fun k => qfloor (delay (k_cfg c) k)) [1; 2; 3; 4]%nat) in
+              list_eqb Z.eqb (k_delays c) (map (fun k => qfloor (delay (k_cfg c) k)) delay_ks) in
   {| r_verdict := match pred with Some cl => VPredFail cl | None => if same then VOk else VMismatch "load_with_fallback" end;
      r_trivial := false;
      r_tags := [k_main_kind c] ++ (if (1 <? k_attempts c)%Z then ["retried"] else []) |}.
